@@ -25,7 +25,7 @@ EXPLANATION = (
     'inside the effective support, so every omitted summand lies at or beyond the support edge (with the tail lemma of C07 this '
     'gives the 2 x threshold bound), the whole-period fallback returns (0, full response), half=True is a prefix, and the '
     'response methods are pure functions of (instance, arguments): repeating calls with other widths in between changes nothing.')
-BOUNDS = {'quick': 'widths 2, 3, 8, 9, 64 (compact banks: filters spanning <= 4 bins; Gabor/gammatone: supports spanning <= 3 bins, any position incl. below 0 Hz / above Nyquist)',
+BOUNDS = {'quick': 'widths 2, 3, 8, 9, 64 (compact banks: filters spanning <= 4 bins, Fbank <= 2 bins and widths <= 9; Gabor/gammatone: supports spanning <= 3 bins, any position incl. below 0 Hz / above Nyquist)',
           'thorough': 'widths 2, 3, 4, 5, 7, 8, 9, 16, 17, 64, 127, 512'}
 OUTSIDE = ['finiteness of values (floating-point overflow)', 'magnitude of floating-point error',
            'Gabor / gammatone: numerical size of the omitted summands (tail lemma, C07) -- the bound is decided structurally, not numerically']
@@ -39,6 +39,8 @@ def configs(tier, seed):
     cfgs = []
     for cls in ('TriangularOverlappingFilterBank', 'Fbank'):
         for w, an in itertools.product(widths, (False, True)):
+            if cls == 'Fbank' and tier == 'quick' and w > 9:
+                continue
             cfgs.append(dict(kind='compact', name='compact %s w%d analytic=%s' % (cls, w, an), cls=cls, width=w, analytic=an))
     cfgs.append(dict(kind='vertices', name='triangular constructor keeps vertices inside [0, Nyquist]'))
     for cls in ('GaborFilterBank', 'ComplexGammatoneFilterBank'):
@@ -70,7 +72,8 @@ def run_compact(cfg):
     def body():
         c = Ctx.cur
         l, m, r = z3.Reals('l m r')
-        c.assume(0 <= l, l < m, m < r, r <= rate / 2, (r - l) * width <= 4 * rate)
+        span = 4 if cls != 'Fbank' else 2      # Fbank: every bin adds log/exp axiom instances (mel), keep the filter narrow
+        c.assume(0 <= l, l < m, m < r, r <= rate / 2, (r - l) * width <= span * rate)
         b = T.__new__(T)
         b._rate = rate
         b._analytic = analytic
